@@ -74,11 +74,21 @@ func judge(c Case, w *vkit.W) (v Verdict, accepted bool, value uint64) {
 			w.Fail(c, "undocumented-error", fmt.Sprintf("%s(%q, rule=%#b, MaxObjectKeys=%d): error %v is none of the documented errors that apply here %v", path, input, c.Rule, c.MaxKeys, err, v.Faults))
 		}
 	}
-	got, err := size.DefaultParser(input, rule)
-	check("DefaultParser[string]", got, err)
-	accepted, value = err == nil, uint64(got)
-	got, err = size.DefaultParser(w.Scratch(input), rule) // a reused caller buffer
-	check("DefaultParser[[]byte]", got, err)
+	var got size.Size
+	var err error
+	if w.Flip() { // the order of the two instantiations alternates
+		got, err = size.DefaultParser(input, rule)
+		check("DefaultParser[string]", got, err)
+		accepted, value = err == nil, uint64(got)
+		got, err = size.DefaultParser(w.Scratch(input), rule) // a reused caller buffer
+		check("DefaultParser[[]byte]", got, err)
+	} else {
+		got, err = size.DefaultParser(w.Scratch(input), rule)
+		check("DefaultParser[[]byte]", got, err)
+		got, err = size.DefaultParser(input, rule)
+		check("DefaultParser[string]", got, err)
+		accepted, value = err == nil, uint64(got)
+	}
 	if v.Accept || len(input) < 4 {
 		got, err = size.DefaultParser(namedS(input), rule)
 		check("DefaultParser[named string]", got, err)
